@@ -17,7 +17,8 @@
 EXTENDS IA32Decode
 CONSTANTS MaxDev,      \* how many fields may leave their base set
           Base67,      \* FALSE normally; TRUE makes <<103>> (16-bit addressing) the base prefix set
-          Op1Set       \* first opcode bytes explored (0..255 normally; a subset to shard / to focus)
+          Op1Set,      \* first opcode bytes explored (0..255 normally; a subset to shard / to focus)
+          Op2Set       \* second opcode bytes explored after the 0F escape (0..255 normally)
 VARIABLES bytes, stage, dev
 BasePfx == IF Base67 THEN <<103>> ELSE <<>>
 
@@ -53,7 +54,7 @@ Extend(field, vals, base) ==
         /\ dev' <= MaxDev
 B1(S) == { <<x>> : x \in S }
 Opcode(d)  == d.need = "opcode"  /\ Extend("Opcode", {}, B1(Op1Set \ PfxBytes))
-Opcode2(d) == d.need = "opcode2" /\ Extend("Opcode2", {}, B1(0..255))
+Opcode2(d) == d.need = "opcode2" /\ Extend("Opcode2", {}, B1(Op2Set))
 Opcode3(d) == d.need = "opcode3" /\ Extend("Opcode3", {}, B1(DOMAIN (IF bytes[Len(bytes)] = 56 THEN Map38 ELSE Map3A) \cup {255}))
 ModRM(d)   == d.need = "modrm"   /\ Extend("ModRM", B1(ModrmRich(d)), B1(ModrmBase(d)))
 SIB(d)     == d.need = "sib"     /\ Extend("SIB", B1(SibRich), B1(SibBase))
